@@ -656,10 +656,6 @@ UPGRADER:
 			}
 		case stateBodyTrailerHeaderValue:
 			switch c {
-			case ' ':
-				if p.headerValue == "" {
-					p.headerValue = string(data[start:i])
-				}
 			case '\r':
 				if p.headerValue == "" {
 					p.headerValue = string(data[start:i])
